@@ -210,7 +210,10 @@ Section MovingEv.
         = Some (rev (Fin ++ map eb (pP ++ [mkEntry b false]))) /\
       Inv s3 Fin (rev (Fin ++ map eb (pP ++ [mkEntry b false]))) /\
       keys (store (db s3)) = keys (store (db s1)) /\ last_sent s3 = Some b /\
-      libref (db s3) = libref (db s1) /\ last_lib_seen s3 = last_lib_seen s1.
+      libref (db s3) = libref (db s1) /\ last_lib_seen s3 = last_lib_seen s1 /\
+      Forall (fun e => esent e = true) Rs /\ Forall (fun e => esent e = false) Ru /\
+      store (db s3) = mark_all (store (db s1)) (unsent (map seg_of (pP ++ [mkEntry b false]))) /\
+      extra (db s3) = extra (db s1).
   Proof.
     intros HI Hb Hc HP HC HS.
     pose proof HI as [Hd Hfin Hflast Hh]. pose proof Hd as [Hnd HU Hcoh Hnum Hextra Hlc].
@@ -364,7 +367,14 @@ Section MovingEv.
       linked (ri (libref (db s3))) Fnew /\
       (forall x, In x U -> In (bid x) (keys (store (db s3))) ->
                  In (bid x) (keys (store (db s'))) \/ bnum x < rn (libref (db s'))) /\
-      (forall id, In id (keys (store (db s'))) -> In id (keys (store (db s3)))).
+      (forall id, In id (keys (store (db s'))) -> In id (keys (store (db s3)))) /\
+      (Fnew <> [] -> exists A a B,
+         chain (store (db s3)) (bid b) (ri (libref (db s3))) (A ++ a :: B) /\ bnum (eb a) = blib b /\
+         Fnew = map eb (A ++ [a]) /\
+         stalled = (if f_stalled (c_filter cfg)
+                    then map (fun sg => eb (sent sg)) (stalled_in_segment (db s3) (map seg_of (A ++ [a]))) else []) /\
+         db s' = purge_before_lib (move_lib (db s3) (mkR (key a) (bnum (eb a)))) (c_kept cfg) /\
+         last_lib_seen s' = mkR (key a) (bnum (eb a))).
   Proof.
     intros HI Hls Hb Hne.
     destruct (lib_half U r0 cfg Hnofail U_id U_uniq U_up L_id L_num L_up L_decl s3 Fin S3 b evs HI Hls Hb Hne)
@@ -376,7 +386,7 @@ Section MovingEv.
       subst Fnew. exists s3, [], []. split.
       { unfold late_evs. destruct (f_irr (c_filter cfg)); cbn [irr_events stalled_events length app]; rewrite app_nil_r; exact Hrun. }
       split; [exact HI'|]. split; [exact Hls|]. split; [left; auto|].
-      split; [constructor|]. split; [exact I|]. split; [intros x Hx Hk; left; exact Hk | auto].
+      split; [constructor|]. split; [exact I|]. split; [intros x Hx Hk; left; exact Hk|]. split; [auto | congruence].
     - rewrite Hrun in Hres. injection Hres as <- Hev.
       apply app_inv_head in Hev. unfold late_evs in Hev.
       apply split_irr_stalled in Hev as [HeI HeS];
@@ -393,7 +403,19 @@ Section MovingEv.
         split; [exact HFne|]. split; [exact Hgt|]. split; [rewrite Hlib; exact Hna|].
         split; [rewrite Hlls, Hlib; reflexivity | rewrite Hdb; reflexivity]. }
       split; [exact HFnew|]. split; [exact HFlk|]. split; [exact Hkeys|].
-      intros id Hid. rewrite Hdb in Hid. cbn [purge_before_lib store] in Hid. eapply in_filter_keys. exact Hid.
+      split; [intros id Hid; rewrite Hdb in Hid; cbn [purge_before_lib store] in Hid; eapply in_filter_keys; exact Hid|].
+      intros _. exists A, a, B. split; [exact Hc|]. split; [exact Hna|].
+      split; [|split; [reflexivity | split; [exact Hdb | exact Hlls]]].
+      pose proof HI as [Hd3 _ _ Hh3]. rewrite Hls in Hh3. destruct Hh3 as (_ & p3 & Hc3 & HS3 & _).
+      pose proof (chain_det _ _ _ _ _ Hc3 Hc) as ->.
+      pose proof HI' as [_ _ _ Hh']. rewrite Hls' in Hh'. destruct Hh' as (_ & p' & Hc' & HS' & _).
+      destruct (dbinv_purge U r0 cfg U_id U_uniq U_up L_id L_num L_up L_decl (db s3) (bid b) A a B (c_kept cfg) Hd3 Hc) as (_ & _ & _ & HcB).
+      rewrite Hdb in Hc'. cbn [purge_before_lib move_lib libref ri] in Hc'.
+      pose proof (chain_det _ _ _ _ _ Hc' HcB) as ->.
+      rewrite HS3 in HS'. apply (f_equal (@rev block)) in HS'. rewrite !rev_involutive in HS'.
+      rewrite <- app_assoc in HS'. apply app_inv_head in HS'.
+      replace (A ++ a :: B) with ((A ++ [a]) ++ B) in HS' by (rewrite <- app_assoc; reflexivity).
+      rewrite map_app in HS'. apply app_inv_tail in HS'. symmetry. exact HS'.
   Qed.
   (* ---------------------------------------------------------------- one ProcessBlock call, everything exposed *)
 
@@ -565,7 +587,7 @@ Section MovingEv.
     destruct (lib_half_ev s3 Fin _ b
                 (undo_evs (libref (db s)) b (junction_of r0 (lib_stored r0 s) (rev (map eb Uh)) (rev (Fin ++ map eb C))) (rev (map eb Uh)) ++
                  new_evs (libref (db s)) b (map eb Rs) (map eb (Ru ++ [en]))) HI3 Hls3 Hb Hne3)
-      as (s' & Fnew & stalled & Hrun & HI' & Hls' & Hcase & HFnew & HFlk & Hkeys & Hsub).
+      as (s' & Fnew & stalled & Hrun & HI' & Hls' & Hcase & HFnew & HFlk & Hkeys & Hsub & _).
     rewrite Hl3 in *.
     pose proof HI' as [Hd' Hfin' _ _].
     exists s', Fnew, (rev (Fin ++ map eb (pP ++ [en]))), (rev (Fin ++ map eb C)), (rev (map eb Uh)), (map eb Rs),
@@ -756,7 +778,7 @@ Section MovingEv.
       + unfold sent_chain_switch_segments in Hsw. rewrite Heq, N.eqb_refl in Hsw. injection Hsw as <- <- <-.
         rewrite Heq in HcH. pose proof (chain_det _ _ _ _ _ HcH HcP0) as ->.
         destruct (trigger_first_ev s1 Fin S b pP pP [] [] None None HI1 Hb Hc) as
-          (s3 & Rs & Ru & HR & Hrun & Happ & HI3 & Hk3 & Hls3 & Hlr3 & Hlls3).
+          (s3 & Rs & Ru & HR & Hrun & Happ & HI3 & Hk3 & Hls3 & Hlr3 & Hlls3 & _).
         * rewrite app_nil_r. reflexivity.
         * exact HsH.
         * rewrite app_nil_r. exact HS.
@@ -771,7 +793,7 @@ Section MovingEv.
         rewrite Hsc in Hsw. injection Hsw as <- <- Hjunc.
         rewrite (junction_moving s Fin S C Uh HI HX) in Hjunc.
         destruct (trigger_first_ev s1 Fin S b pP C R Uh junc None HI1 Hb Hc HP) as
-          (s3 & Rs & Ru & HR & Hrun & Happ & HI3 & Hk3 & Hls3 & Hlr3 & Hlls3).
+          (s3 & Rs & Ru & HR & Hrun & Happ & HI3 & Hk3 & Hls3 & Hlr3 & Hlls3 & _).
         * rewrite HH in HsH. apply Forall_app in HsH. tauto.
         * rewrite HS, HH. reflexivity.
         * fold en in Hrun, Happ. rewrite Hrun. rewrite Hcur1, <- Hjunc in *.
@@ -786,7 +808,7 @@ Section MovingEv.
         clear -G. induction pP as [|h t IHt]; cbn [filter]; [reflexivity|].
         rewrite (G h (or_introl eq_refl)). apply IHt. intros x Hx. apply G. right. exact Hx. }
       destruct (trigger_first_ev s1 [] [] b pP [] pP [] None None HI1 Hb Hc eq_refl (Forall_nil _) eq_refl) as
-        (s3 & Rs & Ru & HR & Hrun & Happ & HI3 & Hk3 & Hls3 & Hlr3 & Hlls3).
+        (s3 & Rs & Ru & HR & Hrun & Happ & HI3 & Hk3 & Hls3 & Hlr3 & Hlls3 & _).
       cbn [rev] in Hrun. rewrite Hfil in Hrun. fold en in Hrun, Happ. rewrite Hrun. rewrite Hcur1 in *.
       apply (step_finish_ev s [] [] b s3 pP [] Rs Ru []); auto.
       congruence.
